@@ -511,6 +511,8 @@ def xml_surface_checks(sdk_xml: bytes, expected, V, rng: random.Random, case, on
             elif surface == "xml-charref":
                 rep = "".join(f"&#x{ord(ch):X};" for ch in text)
             else:
+                if "\r" in text:
+                    continue                           # a carriage return in an entity's replacement text is normalised on inclusion
                 k = rng.randint(0, len(text))
                 part = text[k:]
                 esc = "".join(f"&#x{ord(ch):X};" for ch in part)          # entity value: character references are expanded on declaration
